@@ -45,7 +45,16 @@ fn gen_bytes(seed: u64, n: usize) -> Vec<u8> {
     }
     v
 }
+/// {"sparse":[[offset,len,seed]..],"n":total}: zeros with data segments; built with REAL holes (set_len + pwrite)
 fn content_bytes(c: &Value) -> Vec<u8> {
+    if let Some(segs) = c.get("sparse") {
+        let mut v = vec![0u8; c["n"].as_u64().unwrap() as usize];
+        for s in segs.as_array().unwrap() {
+            let (off, len, seed) = (s[0].as_u64().unwrap() as usize, s[1].as_u64().unwrap() as usize, s[2].as_u64().unwrap());
+            v[off..off + len].copy_from_slice(&gen_bytes(seed, len));
+        }
+        return v;
+    }
     if let Some(seed) = c.get("gen") {
         gen_bytes(seed.as_u64().unwrap(), c["n"].as_u64().unwrap() as usize)
     } else {
@@ -77,7 +86,18 @@ fn build(root: &Path, tree: &Value) {
         let n = &e["n"];
         match n["k"].as_str().unwrap() {
             "d" => std::fs::create_dir(&path).unwrap(),
-            "f" => std::fs::write(&path, content_bytes(&n["c"])).unwrap(),
+            "f" => {
+                if let Some(segs) = n["c"].get("sparse") {
+                    use std::os::unix::fs::FileExt;
+                    let f = std::fs::File::create(&path).unwrap();
+                    f.set_len(n["c"]["n"].as_u64().unwrap()).unwrap();
+                    for s in segs.as_array().unwrap() {
+                        f.write_all_at(&gen_bytes(s[2].as_u64().unwrap(), s[1].as_u64().unwrap() as usize), s[0].as_u64().unwrap()).unwrap();
+                    }
+                } else {
+                    std::fs::write(&path, content_bytes(&n["c"])).unwrap();
+                }
+            }
             "l" => std::os::unix::fs::symlink(segs_of(&n["t"]).join("/"), &path).unwrap(),
             "p" => {
                 let c = std::ffi::CString::new(path.as_os_str().as_bytes()).unwrap();
@@ -240,6 +260,18 @@ fn run_op(root: &Path, o: &Value) -> (Value, Value) {
             )
         }
         "read" => wrap(guarded(|| fs::read(&p)), |v| content(&v)),
+        "read_x" | "read_string_x" => {
+            // a file OUTSIDE the tree (o.x, absolute), e.g. a sysfs binary attribute: st_size says N, every
+            // read(2) hands out at most one page.  The observer's content goes into the shown operation (c).
+            let x = o["x"].as_str().unwrap();
+            shown["c"] = content(&std::fs::read(x).unwrap());
+            let px = ustr(x);
+            if op == "read_x" {
+                wrap(guarded(|| fs::read(&px)), |v| content(&v))
+            } else {
+                wrap(guarded(|| fs::read_to_string(&px)), |v| content(v.as_bytes()))
+            }
+        }
         "read_file" => wrap(
             guarded(|| {
                 let mut f = fs::File::open(&p)?;
@@ -597,6 +629,51 @@ fn bigcopy_mode(base: &str, len: u64, dst_len: u64) {
     let _ = std::fs::remove_dir_all(&root);
 }
 
+/// Whole-file reads of a sparse file larger than what one read(2) hands out (0x7ffff000): fs::read and
+/// fs::read_to_string must return every byte.  Reports length and head/tail/sample checks.
+fn bigread_mode(base: &str, len: u64, which_ops: &str) {
+    use std::io::{Seek, SeekFrom, Write};
+    let root = PathBuf::from(base).join("bigread");
+    let _ = std::fs::remove_dir_all(&root);
+    std::fs::create_dir_all(&root).unwrap();
+    let src = root.join("src");
+    // ASCII head / tail so that the file is valid UTF-8 (zeros in between)
+    let head: Vec<u8> = gen_bytes(7, 1024).iter().map(|b| b & 0x7f).collect();
+    let tail: Vec<u8> = gen_bytes(8, 1024).iter().map(|b| b & 0x7f).collect();
+    {
+        let mut f = std::fs::File::create(&src).unwrap();
+        f.write_all(&head).unwrap();
+        f.set_len(len).unwrap();
+        f.seek(SeekFrom::Start(len - 1024)).unwrap();
+        f.write_all(&tail).unwrap();
+    }
+    let p = ustr(&src.display().to_string());
+    for which in ["read", "read_to_string"] {
+        if which_ops == "read" && which != "read" {
+            continue;
+        }
+        let t0 = std::time::Instant::now();
+        let r: Result<tiny_std::Result<Vec<u8>>, String> = guarded(|| {
+            if which == "read" {
+                tiny_std::fs::read(&p)
+            } else {
+                tiny_std::fs::read_to_string(&p).map(String::into_bytes)
+            }
+        });
+        let ev = match r {
+            Ok(Ok(v)) => {
+                let l = v.len() as u64;
+                let ok = l == len && v[..1024] == head[..] && v[v.len() - 1024..] == tail[..] && v[1024..v.len() - 1024].iter().step_by(4093).all(|b| *b == 0);
+                json!({"ev": "bigread", "op": which, "len": len, "res": "ok", "got_len": l, "content_ok": ok, "ms": t0.elapsed().as_millis() as u64})
+            }
+            Ok(Err(e)) => json!({"ev": "bigread", "op": which, "len": len, "res": "err", "got_len": 0, "content_ok": false, "msg": format!("{e}"), "ms": t0.elapsed().as_millis() as u64}),
+            Err(m) => json!({"ev": "bigread", "op": which, "len": len, "res": "panic", "got_len": 0, "content_ok": false, "msg": m, "ms": t0.elapsed().as_millis() as u64}),
+        };
+        println!("{ev}");
+    }
+    let _ = std::fs::remove_dir_all(&root);
+}
+
 fn main() {
     // panics of the code under test are data (quiet); panics of the driver itself are tool errors (loud)
     std::panic::set_hook(Box::new(|info| {
@@ -610,6 +687,7 @@ fn main() {
         "fanout" => fanout_mode(&a[2], &a[3]),
         "dirmatrix" => dirmatrix_mode(&a[2], &a[3]),
         "bigcopy" => bigcopy_mode(&a[2], a[3].parse().unwrap(), a[4].parse().unwrap()),
+        "bigread" => bigread_mode(&a[2], a[3].parse().unwrap(), a.get(4).map_or("both", String::as_str)),
         _ => panic!("usage"),
     }
 }
